@@ -307,6 +307,28 @@ def replay_vm(exe, failures):
     return {"status": "not_reproduced", "summary": f"VM and reference agreed natively on all {len(batch)} concrete instances", "attempts": tried, "concrete_instances_run": len(batch)}
 
 
+def replay_eval(exe, failures):
+    tried = []
+    for f in failures:
+        sc = f.get("scenario")
+        if not sc or sc.get("kind") != "eval":
+            continue
+        out, why = run(exe, "eval", [sc["request"]])
+        if out is None:
+            tried.append({"label": f["label"], "skipped": why})
+            continue
+        got = (out[0].get("results") or [{}])[0]
+        exp = sc["expected"]
+        rec = {"label": f["label"], "request": sc["request"], "expected": exp, "native": got}
+        tried.append(rec)
+        ok = got.get("ok") == exp["ok"] if "ok" in exp else got.get("err") == exp.get("err")
+        if "panic" in got or not ok:
+            rec["reproduced"] = True
+            return {"status": "reproduced", "summary": f"{sc['request']['programs']} with {sc['request'].get('params')} gave {got}, the property demands {exp}", "attempts": tried}
+    ran = any("native" in t for t in tried)
+    return {"status": "not_reproduced" if ran else "unavailable", "summary": "native results agree" if ran else "no scenario could be made concrete", "attempts": tried}
+
+
 def replay_value(exe, failures):
     tried = []
     for f in failures:
@@ -516,6 +538,8 @@ def main():
             r = r2 if r2["status"] == "reproduced" else r
     elif any((f.get("scenario") or {}).get("kind") == "vm" for f in fails):
         r = replay_vm(exe, fails)
+    elif any((f.get("scenario") or {}).get("kind") == "eval" for f in fails):
+        r = replay_eval(exe, fails)
     elif any((f.get("scenario") or {}).get("kind") == "literal" for f in fails):
         r = replay_literal(exe, fails)
     elif any((f.get("scenario") or {}).get("kind") == "serde" for f in fails):
